@@ -77,12 +77,12 @@ func defsOf(info *types.Info, root ast.Node, v types.Object) []ast.Expr {
 }
 
 type cycNode struct {
-	f        *FuncInfo
-	isLit    bool
-	entryIn  bool // entry fact "a container was pushed": AND over callers (helpers only)
-	np       bool // has a non-progress dispatch
-	npSites  []token.Pos
-	callers  int
+	f       *FuncInfo
+	isLit   bool
+	entryIn bool // entry fact "a container was pushed": AND over callers (helpers only)
+	np      bool // has a non-progress dispatch
+	npSites []token.Pos
+	callers int
 }
 
 type cycS struct{ pushed bool }
@@ -551,24 +551,28 @@ func depthIndependentGuard(p *Program, f *FuncInfo, decl *FuncInfo) (bool, strin
 		})
 		return dep
 	}
-	// expand captured bool locals one level
+	// expand captured bool locals transitively through their definitions
 	expand := func(e ast.Expr) []ast.Expr {
 		out := []ast.Expr{e}
-		ast.Inspect(e, func(n ast.Node) bool {
-			id, ok := n.(*ast.Ident)
-			if !ok {
+		seen := map[*types.Var]bool{}
+		for i := 0; i < len(out); i++ {
+			ast.Inspect(out[i], func(n ast.Node) bool {
+				id, ok := n.(*ast.Ident)
+				if !ok {
+					return true
+				}
+				v, _ := info.Uses[id].(*types.Var)
+				if v == nil || v.IsField() || decl == nil || seen[v] {
+					return true
+				}
+				if b, ok := v.Type().Underlying().(*types.Basic); !ok || b.Kind() != types.Bool {
+					return true
+				}
+				seen[v] = true
+				out = append(out, defsOf(info, decl.Body(), v)...)
 				return true
-			}
-			v, _ := info.Uses[id].(*types.Var)
-			if v == nil || v.IsField() || decl == nil {
-				return true
-			}
-			if b, ok := v.Type().Underlying().(*types.Basic); !ok || b.Kind() != types.Bool {
-				return true
-			}
-			out = append(out, defsOf(info, decl.Body(), v)...)
-			return true
-		})
+			})
+		}
 		return out
 	}
 	for _, d := range disjuncts {
